@@ -269,9 +269,32 @@ func Build(scratch string, race bool) (*Result, error) {
 		return nil, fmt.Errorf("R3b: pattern %q does not occur exactly once in runtime/proc.go", procPat)
 	}
 	procOut := bytes.Replace(procSrc, []byte(procPat), []byte("if (randomizeScheduler && next && randn(2) == 0) || (next && verifSelectState != 0 && gp.bubble == nil) {"), 1)
+	// R3d: sysmon asks a goroutine that has been running for 10 ms of *real* time to yield at its
+	// next function call; on a loaded machine that perturbs the order in which bubble goroutines
+	// run. Goroutines of an active simulation are never preempted (they block often enough).
+	const preemptPat = "\tgp.preempt = true\n\n\t// Every call in a goroutine checks for stack overflow by"
+	if bytes.Count(procOut, []byte(preemptPat)) != 1 {
+		return nil, fmt.Errorf("R3d: preemptone pattern does not occur exactly once in runtime/proc.go")
+	}
+	procOut = bytes.Replace(procOut, []byte(preemptPat), []byte("\tif verifSelectState != 0 && gp.bubble != nil {\n\t\treturn false\n\t}\n"+preemptPat), 1)
 	if err := os.WriteFile(filepath.Join(rtDir, "proc.go"), procOut, 0o644); err != nil {
 		return nil, err
 	}
+	// R3c: fake-clock timers that expire at the same instant are ordered by a per-timer random
+	// value (runtime/time.go); take it from the seeded stream.
+	timeSrc, err := os.ReadFile(filepath.Join(goroot, "src/runtime/time.go"))
+	if err != nil {
+		return nil, err
+	}
+	const timePat = "t.rand = cheaprand()"
+	if bytes.Count(timeSrc, []byte(timePat)) != 1 {
+		return nil, fmt.Errorf("R3c: pattern %q does not occur exactly once in runtime/time.go", timePat)
+	}
+	timeOut := bytes.Replace(timeSrc, []byte(timePat), []byte("t.rand = verifTimerRand()"), 1)
+	if err := os.WriteFile(filepath.Join(rtDir, "time.go"), timeOut, 0o644); err != nil {
+		return nil, err
+	}
+	overlay[filepath.Join(goroot, "src/runtime/time.go")] = filepath.Join(rtDir, "time.go")
 	overlay[filepath.Join(goroot, "src/runtime/proc.go")] = filepath.Join(rtDir, "proc.go")
 	overlay[filepath.Join(goroot, "src/runtime/select.go")] = filepath.Join(rtDir, "select.go")
 	overlay[filepath.Join(goroot, "src/runtime/verif_sim.go")] = filepath.Join(rtDir, "verif_sim.go")
